@@ -129,7 +129,7 @@ func VF_C17_L1_HTTP() {
 	errCode := "" // the first service error answered (decides the status)
 	trigger := zzvf.ParamOr("trigger", 0) == 1
 	var metaCookies []string // Set-Cookie values supplied by the metas answered so far
-	direct := false         // a direct-response status has ended the request
+	direct := false          // a direct-response status has ended the request
 	var directStatus int
 	for step := 0; step < 8; step++ {
 		pend := w.mq.pending()
